@@ -108,12 +108,28 @@ def _c22():
     q('spin_lock_T3_K5', 0, 3, 5, 1)
     q('spin_trylock_T2_K5_n2', 0, 2, 5, 2, trylock=1, unwind=5)
     q('reentrant_T2_K4', 1, 2, 4, 1)
-    q('reentrant_T2_K6', 1, 2, 6, 1, tiers=('thorough',), timeout=3000)
+    q('reentrant_T2_K6_n2', 1, 2, 6, 2, unwind=5)
+    q('reentrant_T2_K8_n2', 1, 2, 8, 2, tiers=('thorough',), timeout=3000, unwind=6)
+    q('reentrant_T3_K5', 1, 3, 5, 1, tiers=('thorough',), timeout=3000)
     q('spin_lock_T3_K7_n2', 0, 3, 7, 2, tiers=('thorough',), timeout=3000, unwind=5)
+    q('spin_lock_T2_K10_n3', 0, 2, 10, 3, tiers=('thorough',), timeout=3000, unwind=6)
+    def m(name, kind, T, K, nops, nn=2, tiers=('quick', 'thorough'), timeout=900, unwind=4, spinU=2):
+        qs.append(Q(name, 'c22b_monitors.cpp', mode='coro', T=T, K=K, defs={'MON_KIND': kind, 'NOPS': nops, 'NNODES': nn, 'VERIF_T': T},
+                    spin={'do_lock|do_unlock|pool_monitor': spinU}, unwind=unwind, timeout=timeout, tiers=tiers, validate=6, coro_style='guard'))
+    m('pool_monitor_T2_K5_n1', 0, 2, 5, 1)
+    m('pool_monitor_T2_K6_n2', 0, 2, 6, 2, unwind=5, tiers=('thorough',), timeout=3000)
+    m('pool_monitor_T2_K5_n2_1node', 0, 2, 5, 2, nn=1, unwind=5, tiers=('thorough',), timeout=3000)
+    m('pool_monitor_T3_K5_n1', 0, 3, 5, 1, tiers=('thorough',), timeout=3000)
+    m('pool_monitor_T2_K8_n2', 0, 2, 8, 2, tiers=('thorough',), timeout=3000, unwind=5)
+    m('injecting_monitor_T2_K5_n2', 1, 2, 5, 2, unwind=5)
+    m('lock_array_pow2_T2_K5_n2', 2, 2, 5, 2, unwind=5)
+    m('lock_array_mod3_T2_K5_n2', 3, 2, 5, 2, unwind=5)
+    m('lock_array_pow2_T3_K5_n1', 2, 3, 5, 1, tiers=('thorough',), timeout=3000)
     return qs
 CHECKS['C22'] = {
     'queries': _c22(), 'level': 'model_checking',
-    'outside': ['pool_monitor, injecting_monitor, lock_array (not encoded in this round: they need an allocator-backed lock pool / node hooks)',
+    'outside': ['pool_monitor is run over a harness-supplied lock pool (ghost bookkeeping, real spin_lock objects); the real vyukov_queue_pool is the subject of C24',
+                'lock_array::lock_all/unlock_all; std::mutex as lock type', 'more than 3 threads, 2 critical sections per thread, 2 nodes',
                 'sequential consistency only: weakening a memory_order is not detectable', 'schedules with more than K-1 context switches',
                 'liveness (a lock() that spins forever is cut by assume after U failed iterations)'],
     'assumptions': ['context switches only immediately before atomic operations (DRF-SC)', 'pthread_self() modelled as the harness thread number'],
@@ -122,19 +138,31 @@ CHECKS['C22'] = {
 # ---------------------------------------------------------------- C07
 def _c07():
     qs = []
-    def q(name, T, K, nops, cap, rot, dyn=0, ic=0, tiers=('quick', 'thorough'), timeout=900, U=3):
-        qs.append(Q(name, 'c07_vyukov.cpp', mode='coro', T=T, K=K, defs={'NOPS': nops, 'CAP': cap, 'ROTMAX': rot, 'DYNAMIC_BUFFER': dyn, 'ITEM_COUNTER': ic, 'VERIF_T': T},
-                    spin={'do_enq|do_deq': U}, unwind=max(U, cap) + 3, unwind_fn={'linearizable': 26 if T * nops <= 4 else 122}, timeout=timeout, tiers=tiers, validate=6))
+    def q(name, T, K, nops, cap, rot, dyn=0, ic=0, tiers=('quick', 'thorough'), timeout=900, U=3, sc=0, intr=0, cl=0, style='goto'):
+        qs.append(Q(name, 'c07_vyukov.cpp', mode='coro', T=T, K=K, defs={'NOPS': nops, 'CAP': cap, 'ROTMAX': rot, 'DYNAMIC_BUFFER': dyn, 'ITEM_COUNTER': ic, 'VERIF_T': T,
+                                                                       'SINGLE_CONSUMER': sc, 'INTRUSIVE': intr, 'CLEANER': cl},
+                    spin={'do_enq|do_deq': U}, unwind=max(U, cap) + 3, unwind_fn={'linearizable': 26 if T * nops <= 4 else 122}, timeout=timeout, tiers=tiers, validate=6, coro_style=style))
     q('vyukov_static_cap2_T2_n1_K4', 2, 4, 1, 2, 3)
     q('vyukov_dynamic_cap2_T2_n1_K4_ic', 2, 4, 1, 2, 1, dyn=1, ic=1)
-    q('vyukov_static_cap2_T3_n1_K4', 3, 4, 1, 2, 2, tiers=('thorough',), timeout=3000)
+    q('vyukov_static_cap2_T3_n1_K4', 3, 4, 1, 2, 2)
     q('vyukov_static_cap2_T2_n2_K4', 2, 4, 2, 2, 3, tiers=('thorough',), timeout=3000)
+    q('vyukov_static_cap2_T2_n1_K6', 2, 6, 1, 2, 3)
+    q('vyukov_sc_front_cap2_T2_n2_K4', 2, 4, 2, 2, 1, sc=1, tiers=('thorough',), timeout=3000)
+    q('vyukov_sc_front_cap2_T2_n1_K5', 2, 5, 1, 2, 1, sc=1)
+    q('vyukov_sc_front_cap2_T3_n1_K4', 3, 4, 1, 2, 1, sc=1)
+    q('vyukov_intrusive_cap2_T2_n2_K4', 2, 4, 2, 2, 1, intr=1, tiers=('thorough',), timeout=3000)
+    q('vyukov_intrusive_cap2_T3_n1_K4', 3, 4, 1, 2, 1, intr=1)
+    q('vyukov_cleaner_cap2_T2_n2_K4', 2, 4, 2, 2, 2, cl=1, tiers=('thorough',), timeout=3000)
+    q('vyukov_cleaner_cap2_T3_n1_K4', 3, 4, 1, 2, 2, cl=1)
     q('vyukov_static_cap4_T2_n2_K5', 2, 5, 2, 4, 5, tiers=('thorough',), timeout=3000)
+    q('vyukov_static_cap2_T2_n2_K6', 2, 6, 2, 2, 3, tiers=('thorough',), timeout=3000)
+    q('vyukov_dynamic_cap4_T3_n1_K5', 3, 5, 1, 4, 3, dyn=1, tiers=('thorough',), timeout=3000)
+    q('vyukov_static_cap8_T2_n2_K4', 2, 4, 2, 8, 9, tiers=('thorough',), timeout=3000)
     return qs
 CHECKS['C07'] = {
     'queries': _c07(), 'level': 'model_checking',
-    'outside': ['intrusive::VyukovMPMCCycleQueue wrapper and the single-consumer front()/pop_front() pair (not encoded this round)',
-                'quick: one operation per thread (2-3 threads) on a pre-rotated, pre-filled queue; thorough: 2 threads x 2 operations (no verdict within 15 min was observed for that bound, it may end as exit 2 = not decided)', 'capacities above 4, more than K-1 context switches',
+    'outside': ['at most 2 threads x 2 operations or 3 threads x 1 operation on a pre-rotated (wrap-around), pre-filled queue; capacities above 8; more than K-1 context switches',
+                'value types with non-trivial destructors are represented by a custom value_cleaner that overwrites the cell and contains one atomic operation (context-switch point)',
                 'sequential consistency only: weakening a memory_order is not detectable'],
     'assumptions': ['context switches only immediately before atomic operations (DRF-SC)',
                     'retry iterations of enqueue_with/dequeue_with are read-only on shared state; more than U retries per call are cut by assume (stutter-equivalent for safety)'],
@@ -152,12 +180,12 @@ def _c12():
         d = {'Q_SEQ_V': None, 'CAP': cap, 'NOPS': nops, 'DYNAMIC_BUFFER': dyn}
         if strict: d['STRICT_SPACE'] = None
         qs.append(Q(name, 'c12_ring.cpp', mode='seq', opt='O1', defs=d, unwind=max(nops + 3, cap - 16 + 2), timeout=timeout, tiers=tiers, validate=10))
-    def coro_t(name, cap, np_, nc, K, rot, dyn=0, tiers=('quick', 'thorough'), timeout=900):
+    def coro_t(name, cap, np_, nc, K, rot, dyn=0, tiers=('quick', 'thorough'), timeout=900, style='goto'):
         qs.append(Q(name, 'c12_ring.cpp', mode='coro', T=2, K=K, defs={'Q_CORO_T': None, 'CAP': cap, 'NP': np_, 'NC': nc, 'ROT': rot, 'DYNAMIC_BUFFER': dyn},
-                    unwind=max(cap, rot) + 3, unwind_fn={'linearizable': 26}, timeout=timeout, tiers=tiers, validate=6))
-    def coro_v(name, cap, np_, nc, K, dyn=1, tiers=('quick', 'thorough'), timeout=900):
+                    unwind=max(cap, rot) + 3, unwind_fn={'linearizable': 26}, timeout=timeout, tiers=tiers, validate=6, coro_style=style))
+    def coro_v(name, cap, np_, nc, K, dyn=1, tiers=('quick', 'thorough'), timeout=900, style='goto'):
         qs.append(Q(name, 'c12_ring.cpp', mode='coro', T=2, K=K, defs={'Q_CORO_V': None, 'CAP': cap, 'NP': np_, 'NC': nc, 'DYNAMIC_BUFFER': dyn},
-                    unwind=cap - 16 + 3, unwind_fn={'linearizable': 26}, timeout=timeout, tiers=tiers, validate=6, object_bits=10))
+                    unwind=cap - 16 + 3, unwind_fn={'linearizable': 26}, timeout=timeout, tiers=tiers, validate=6, object_bits=10, coro_style=style))
     seq_t('typed_seq_static_cap4_n5', 4, 5, 3)
     seq_t('typed_seq_dynamic_req3_cap4_n5', 4, 5, 1, dyn=1, reqcap=3)
     seq_t('typed_seq_static_cap8_n6', 8, 6, 5, tiers=('thorough',), timeout=3000)
@@ -185,6 +213,38 @@ CHECKS['C12'] = {
                 'sequential consistency only: weakening a memory_order is not detectable', 'schedules with more than K-1 context switches',
                 'value types with non-trivial constructors/destructors (value_cleaner)'],
     'assumptions': ['context switches only immediately before atomic operations (DRF-SC)', 'one producer thread and one consumer thread (the documented SPSC contract)'],
+}
+
+
+# ---------------------------------------------------------------- C21
+def _c21():
+    qs = []
+    def q(name, kind, T, K, nn, nops, U=4, tiers=('quick', 'thorough'), timeout=900, script=None, **kw):
+        d = {'LIST_KIND': kind, 'NNODES': nn, 'NOPS': nops, 'VERIF_T': T}
+        if script is not None: d['SCRIPT'] = script
+        qs.append(Q(name, 'c21_freelist.cpp', mode='coro', T=T, K=K, defs=d,
+                    unwind=max(U, nn + 2, nops + 1), timeout=timeout, tiers=tiers, validate=6, **kw))
+    q('freelist_T2_n2_ops1_K4', 0, 2, 4, 2, 1)
+    q('tagged_T2_n2_ops1_K4', 1, 2, 4, 2, 1)
+    q('cached_freelist_T2_n2_ops1_K4', 2, 2, 4, 2, 1, unwind_fn={'h_check': 6, r'CachedFreeList.*3getEv_T.\.2': 6})
+    # two steps per thread: the 16 step-kind combinations are separate queries (concrete kinds keep symex small); initial ownership and schedule stay symbolic
+    for sc in range(16):
+        q('freelist_T2_n2_ops2_K4_script%d' % sc, 0, 2, 4, 2, 2, script=sc, tiers=('quick', 'thorough') if sc in (0, 1, 4, 6, 9) else ('thorough',))
+    for sc in (0, 1, 4, 6, 9):
+        q('tagged_T2_n2_ops2_K4_script%d' % sc, 1, 2, 4, 2, 2, script=sc, tiers=('quick', 'thorough') if sc in (0, 6) else ('thorough',))
+    q('freelist_T2_n2_ops2_K4', 0, 2, 4, 2, 2, tiers=('thorough',), timeout=3000)
+    q('freelist_T2_n2_ops2_K6_script6', 0, 2, 6, 2, 2, U=5, script=6, tiers=('thorough',), timeout=3000)
+    q('freelist_T3_n2_ops1_K4', 0, 3, 4, 2, 1, tiers=('thorough',), timeout=3000)
+    q('freelist_T2_n3_ops2_K4', 0, 2, 4, 3, 2, tiers=('thorough',), timeout=3000)
+    q('cached_tagged_T2_n2_ops1_K4', 3, 2, 4, 2, 1, unwind_fn={'h_check': 6, r'CachedFreeList.*3getEv_T.\.2': 6}, tiers=('thorough',), timeout=3000)
+    return qs
+CHECKS['C21'] = {
+    'queries': _c21(), 'level': 'model_checking',
+    'outside': ['more than 3 nodes / 3 threads / 3 steps per thread; schedules with more than K-1 context switches',
+                'sequential consistency only: weakening a memory_order is not detectable',
+                'compare_exchange_weak never fails spuriously', 'ABA through re-allocation of node memory (nodes are static; re-insertion of the SAME node is covered)'],
+    'assumptions': ['context switches only immediately before atomic operations (DRF-SC)',
+                    'std::this_thread::get_id() is the harness thread number; std::_Hash_bytes is the libstdc++ murmur implementation (prelude.h)'],
 }
 
 # ---------------------------------------------------------------- C01 / C03 (HP reclamation pass, sequentialised threads)
